@@ -41,7 +41,7 @@ VCS_SUBCOMMANDS_BY_NAME = {
         'ls_tags'       : "git tag --list --no-column",
         'ls_tags_branch': "git tag --list --no-column --merged",
         'verify_head'   : "git rev-parse --verify --quiet HEAD",
-        'status'        : "git status --porcelain --untracked-files=normal",
+        'status'        : "git status --porcelain --untracked-files=normal --ignore-submodules=untracked",
         'add_path'      : "git add --update -- '{path}'",
         'commit'        : "git commit --message '{message}'",
         'tag'           : "git tag --annotate {tag} --message '{message}'",
